@@ -50,7 +50,7 @@ RULE = ("header: 0-6 pragma lines from the pragma grammar (version/annotation of
         "invalid field, header a Strict writer refuses, rows out of the declared order, Lenient / default "
         "stringency) / adversarial (CR or LF inside a field or pragma value, column names the format cannot carry); "
         "history scenarios on 30% of the cases each: the output paths already hold an earlier MAF and the second write "
-        "goes to the same path (overwrite), cells rendered once with an earlier text and then edited in place by value "
+        "goes to the same path (overwrite), a second writer alive at the same time and fed alternately / abandoned unclosed (sibling), floats needing 16-17 significant digits in 30% of the float cells, cells rendered once with an earlier text and then edited in place by value "
         "assignment or column replacement before the write (stale); all three channels per case; non-trivial = the writer accepted everything and at least one record or one "
         "pragma was written; distinct by hash of the case")
 ASSUMPTIONS = [
@@ -179,6 +179,11 @@ def order_rows(rng, names, rows, order, contigs, typed):
     return out
 
 
+LONG_FLOATS = [repr(1 / 3), repr(0.1 + 0.2), repr(2 / 3), repr(1.1 * 1.1), repr(1e-17 / 3), repr(123456789.12345678),
+               "1.2345678901234567", "0.30000000000000004", "9007199254740993", repr(5e-324), repr(1.7976931348623157e308),
+               "0.1", repr(100 / 7)]
+
+
 def gen_scheme_case(rng, stream):
     annot = rng.choice(ANNOTS)
     cols = SP.layout(annot)["columns"]
@@ -193,6 +198,9 @@ def gen_scheme_case(rng, stream):
             for i, (_, d) in enumerate(cols):              # every nullable column null
                 if "" in SP.null_keys(d):
                     row[i] = ""
+        for i, (_, d) in enumerate(cols):                  # floats that need 16-17 significant digits
+            if d["k"] == "float" and row[i] != "" and rng.random() < 0.3:
+                row[i] = rng.choice(LONG_FLOATS)
         rows.append(row)
     order = rng.choice([None, None, "Coordinate", "BarcodesAndCoordinate", "Unsorted", "Unknown"])
     contigs = None
@@ -319,11 +327,16 @@ def add_scenarios(rng, case):
     """history-dependent scenarios on top of a case (the model sees only the final rows):
     overwrite - the output paths already hold an earlier MAF written by the library, and the second write of the
                 round trip goes to the same path again;
+    sibling   - a second writer on another path / handle is alive during the first write: "first" / "last": fed
+                alternately and closed before / after the writer under test; "abandon": fed before it is created and
+                never closed;
     stale     - [[row, column, earlier text, how]]: the record is first built with the earlier text in that cell and
                 rendered (str(record)), then the cell is edited in place to its final text ("value": assign
                 column.value; "replace": record[name] = a new column) before it is handed to the writer"""
     if rng.random() < 0.3:
         case["overwrite"] = True
+    if case["rows"] and rng.random() < 0.3:
+        case["sibling"] = rng.choice(["first", "last", "abandon"])
     if case["rows"] and rng.random() < 0.3:
         names = case_names(case)
         cols = SP.layout(case["layout"])["columns"] if case["layout"] else None
@@ -352,6 +365,22 @@ def _typed_rows():
         f[-1] = ""
         rows.append(f)
     return rows
+
+
+def _long_float_row():
+    cols = SP.layout("gdc-1.0.0-protected")["columns"]
+    rng = random.Random(11)
+    row = []
+    k = 0
+    for n, d in cols:
+        t = G.valid_text(rng, d)
+        if d["k"] == "seq" and d["elem"].get("k") == "enum":
+            t = ""
+        if d["k"] == "float":
+            t = LONG_FLOATS[k % 4]
+            k += 1
+        row.append(t)
+    return row
 
 
 def _single_null_row():
@@ -385,6 +414,17 @@ def corpus():
          "names": None, "rows": _typed_rows()[:2], "overwrite": True},
         {"stream": "corpus", "hlines": ["#k v"], "mode": "Silent", "layout": None, "names": ["a", "b"],
          "rows": [["1", ""]], "overwrite": True},
+        # two writers alive at once, fed alternately: each file holds its own records only
+        {"stream": "corpus", "hlines": ["#k v"], "mode": "Silent", "layout": None, "names": ["a", "b"],
+         "rows": [["1", "2"], ["3", ""]], "sibling": "last"},
+        {"stream": "corpus", "hlines": ["#version gdc-1.0.0"], "mode": "Strict", "layout": "gdc-1.0.0", "names": None,
+         "rows": _typed_rows()[:2], "sibling": "abandon"},
+        # non-ASCII text in a pragma and in free-text columns, on all three channels
+        {"stream": "corpus", "hlines": ["#center Universit\u00e9 \u4e2d\u6587", "#\u00e9 \u00fc"], "mode": "Silent", "layout": None,
+         "names": ["g\u00e8ne", "b"], "rows": [["\u00e9\u4e2d", "\U0001F600"], ["", "\u00df"]]},
+        # a float that needs 17 significant digits keeps its value
+        {"stream": "corpus", "hlines": ["#version gdc-1.0.0", "#annotation.spec gdc-1.0.0-protected"], "mode": "Strict",
+         "layout": "gdc-1.0.0-protected", "names": None, "rows": [_long_float_row()]},
         # a record rendered once and then edited in place is written as it is when handed to the writer
         {"stream": "corpus", "hlines": ["#version gdc-1.0.0"], "mode": "Strict", "layout": "gdc-1.0.0", "names": None,
          "rows": _typed_rows()[:2], "stale": [[0, 0, "KRAS", "value"], [1, 5, "3", "replace"], [1, 13, "rs1;rs2", "value"]]},
@@ -411,6 +451,8 @@ def _restale(case, drop_row=None, drop_col=None):
 def shrink(case):
     if case.get("overwrite"):
         yield dict(case, overwrite=False)
+    if case.get("sibling"):
+        yield dict(case, sibling=None)
     st = case.get("stale", [])
     for k in range(len(st)):
         yield dict(case, stale=st[:k] + st[k + 1:])
@@ -500,27 +542,65 @@ def _column_text(r):
     return "\t".join(str(c) for c in r.values())
 
 
-def _write(channel, path, header, recs, mode, cap):
-    """one writer session; returns (session observation, text or None)"""
+def _open_writer(channel, path, header, mode):
     from maflib.writer import MafWriter
-    handle = None
+    if channel == "handle":
+        handle = _KeepIO()
+        return MafWriter.from_fd(handle, header=header, validation_stringency=R.py_mode(mode)), handle
+    return MafWriter.from_path(path, header=header, validation_stringency=R.py_mode(mode)), None
+
+
+def _write(channel, path, header, recs, mode, cap, sibling=None):
+    """one writer session; returns (session observation, text or None).
+    sibling = (how, path, header, records): a second writer (Silent) on another path / handle is alive at the same
+    time; how = "abandon": it got its records before this writer was created and is never closed; "first" / "last":
+    it is fed alternately with this writer and closed before / after it"""
+    sib, srecs, how = None, [], None
+    if sibling is not None:
+        how, spath, sheader, srecs = sibling
+        try:
+            sib, _ = _open_writer(channel, spath, sheader, "Silent")
+        except Exception:  # noqa
+            sib = None
+        if sib is not None and how == "abandon":
+            for sr in srecs:
+                try:
+                    sib += sr
+                except Exception:  # noqa
+                    pass
+            srecs = []
+        cap.take()
     try:
-        if channel == "handle":
-            handle = _KeepIO()
-            w = MafWriter.from_fd(handle, header=header, validation_stringency=R.py_mode(mode))
-        else:
-            w = MafWriter.from_path(path, header=header, validation_stringency=R.py_mode(mode))
+        w, handle = _open_writer(channel, path, header, mode)
     except Exception as e:  # noqa
         return {"log": cap.take(), "init": ["exc", R.c_exn(e)], "adds": []}, None
     sess = {"log": cap.take(), "init": ["ok", R.c_errs(header.validation_errors)], "adds": []}
+    srecs = list(srecs)
     for r in recs:
+        if sib is not None and srecs:
+            try:
+                sib += srecs.pop(0)
+            except Exception:  # noqa
+                pass
+            cap.take()
         try:
             w += r
             res = ["ok", R.c_errs(r.validation_errors)]
         except Exception as e:  # noqa
             res = ["exc", R.c_exn(e)]
         sess["adds"].append({"log": cap.take(), "res": res})
+    if sib is not None and how == "first":
+        try:
+            sib.close()
+        except Exception:  # noqa
+            pass
     w.close()
+    if sib is not None and how == "last":
+        try:
+            sib.close()
+        except Exception:  # noqa
+            pass
+    cap.take()
     if channel == "handle":
         data = handle.kept.encode("utf-8")
     elif channel == "gz":
@@ -594,8 +674,16 @@ def _channel(case, channel, wd):
                 _write(channel, p1, h0, recs0[:1], "Silent", cap0)
         except Exception:  # noqa
             pass
+    sibling = None
+    if case.get("sibling"):
+        try:
+            hs, recs_s = _build_inputs(dict(case, stale=[]))
+            recs_s.reverse()
+            sibling = (case["sibling"], os.path.join(wd, channel + "s" + ext), hs, recs_s)
+        except Exception:  # noqa
+            sibling = None
     with R.LogCapture() as cap:
-        first, text = _write(channel, p1, h, recs, mode, cap)
+        first, text = _write(channel, p1, h, recs, mode, cap, sibling)
         res = {"first": first, "text": text, "read": None, "second": None, "values": None}
         if text is not None:
             rd_obs, hdr2, recs2, values = _read(channel, p1, text, mode, cap, text.count("\n") + 1)
